@@ -47,7 +47,7 @@ type vsConfig struct {
 	converters []string
 	// step weights
 	wImport, wTag, wMark, wConv, wView, wDeliver, wReset int
-	wRecreate                                              int
+	wRecreate                                            int
 }
 
 type vsView struct {
@@ -86,14 +86,14 @@ type vsRun struct {
 	streamExtended    bool
 	extendedAfterConv bool
 	convDone          map[string]map[uint64]bool
-	detached          map[string]int // converter -> side log length at detach+quiescence (unused when <0)
+	detached          map[string]int  // converter -> side log length at detach+quiescence (unused when <0)
 	importedFiles     map[string]bool // captures whose import completion was delivered
 	maybeFiles        map[string]bool // unused
 	maybeQueue        []string        // import queue when a crash copy was taken with an import job parked
 	startedHeld       int             // jobs that were held before their body and started later
 	lastDefs          map[string]string
-	outOfOrder        bool            // a capture arrived before an earlier one
-	convMayBeStale    bool            // an import was delivered while a converter job was in flight: the job works on an older copy of the index files, its output for changed streams is dropped when its completion is delivered
+	outOfOrder        bool // a capture arrived before an earlier one
+	convMayBeStale    bool // an import was delivered while a converter job was in flight: the job works on an older copy of the index files, its output for changed streams is dropped when its completion is delivered
 }
 
 func (r *vsRun) log(f string, a ...any) {
